@@ -70,8 +70,11 @@ DefLt(k, i) == IF i = 1 THEN "p" ELSE "q"           \* names of the struct defin
 \*                same as the one with 'l written out (Desugar); with `&self` (or no self) the borrow stays anonymous, and an
 \*                anonymous lifetime in a return type is refused -- wherever in the type it stands
 RSlots(k) == IF k \in {"rst2", "ropqlt", "rokerr"} THEN 2 ELSE 1
-ElidedRet(k) == k \in {"ropqlt_e", "rokerr_e"}
-BaseKind(k) == IF k = "ropqlt_e" THEN "ropqlt" ELSE IF k = "rokerr_e" THEN "rokerr" ELSE k
+\*                rost1_e Result<Option<St1>, ()> | reost1_e Result<(), Option<St1>>: the struct's lifetime ARGUMENT left out, the struct
+\*                wrapped in an Option inside a Result arm (a DiplomatOption payload has lifetimes like any other type)
+ZeroSlotKinds == {"rost1_e", "reost1_e"}
+ElidedRet(k) == k \in {"ropqlt_e", "rokerr_e"} \cup ZeroSlotKinds
+BaseKind(k) == IF k = "ropqlt_e" THEN "ropqlt" ELSE IF k = "rokerr_e" THEN "rokerr" ELSE IF k \in ZeroSlotKinds THEN "rst1" ELSE k
 SelfNamed(s) == s.self.kind # "none" /\ s.self.slots[1] \in L
 Desugar(s) == IF ElidedRet(s.ret.kind) /\ SelfNamed(s)
                 THEN [s EXCEPT !.ret = [kind |-> BaseKind(s.ret.kind), slots |-> <<s.self.slots[1]>> \o s.ret.slots]]
@@ -84,7 +87,7 @@ PSlotDom(k) == CASE k \in {"opq", "optopq", "slice", "pself"} -> {<<x>> : x \in 
                  [] k = "st1" -> {<<x>> : x \in LR}
                  [] OTHER -> {<<x, y>> : x \in LR, y \in LR}
 Param == UNION {{[kind |-> k, slots |-> s] : s \in PSlotDom(k)} : k \in ParamKinds}
-Ret == UNION {{[kind |-> k, slots |-> s] : s \in Tuples(LR, RSlots(k))} : k \in RetKinds}
+Ret == UNION {IF k \in ZeroSlotKinds THEN {[kind |-> k, slots |-> <<>>]} ELSE {[kind |-> k, slots |-> s] : s \in Tuples(LR, RSlots(k))} : k \in RetKinds}
 \* self: none | &'l self (Self = Opq) | &'l self with Self = Sf<'a,'b> declared `struct Sf<'p, 'q: 'p>` on impl<'a,'b>
 Self == (IF "none" \in SelfKinds THEN {[kind |-> "none", slots |-> <<>>]} ELSE {})
         \cup (IF "ref" \in SelfKinds THEN {[kind |-> "ref", slots |-> <<l>>] : l \in L \cup {"anon"}} ELSE {})
